@@ -75,7 +75,9 @@ def random_instance(rng, max_jobs=4, max_ops=4, max_machines=3, durations=(0, 1,
         for _ in range(rng.randint(1, max_ops)):
             if flexible and rng.random() < 0.4:
                 k = rng.randint(1, max_machines)
-                ms = tuple(sorted(rng.sample(range(max_machines), k)))
+                # the eligible machines are a list: ascending in half of the cases, in a random order otherwise
+                ms = rng.sample(range(max_machines), k)
+                ms = tuple(sorted(ms)) if rng.random() < 0.5 else tuple(ms)
             else:
                 ms = (rng.randrange(max_machines),)
             job.append((ms, rng.choice(durs)))
